@@ -1,12 +1,17 @@
 import Lean.Data.Json
 import NGF.Model.Resolver
 import NGF.Model.ResolverSpec
+import NGF.Model.ResolverFaults
+import NGF.Model.PipelineEndpoints
+import NGF.Model.PipelineRefsTie
 import NGF.Model.Proto
 /-
 Driver entry for C13.  Every input line is one JSON object `{"k":mode,"id":n,"in":{…},"out":{…}}` as
 written by harness/c13 ("out" = what the REAL code produced).
   `model` : recompute "out" from "in" with the Lean model, print it as JSON (lists unordered)
   `judge` : evaluate the property on "in" and the real "out": `ok` | `skip <why>` | `fail <clause>,<clause>…`
+Kinds: `resolve`, `pipe`, `plus`, `e2e`, `seq`, and `faults` (EndpointSlice histories × fault scripts through the real
+`HandleEventBatch`, OSS and Plus: model = `traceH` of `Model/ResolverFaults.lean`).
 Undecodable input answers `bad-op`.
 -/
 namespace NGF.Resolver
@@ -318,6 +323,249 @@ def judgeE2ELine (fam : IPFamily) (ops : List E2EOp) (out : Json) : Except Strin
     fails := fails ++ judgePlusOp ⟨http, stream⟩ o.reload vh vs a
   return verdict fails
 
+/-! ### faults: EndpointSlice histories × fault scripts through the real HandleEventBatch (OSS and Plus) -/
+
+def parseFaults (j : Json) : Except String Faults := do
+  match optField j "faults" with
+  | none => return Faults.none
+  | some f =>
+    let b (k : String) : Bool := match optField f k with
+      | some v => v.getBool?.toOption.getD false
+      | none => false
+    return ⟨b "replace", b "reload", b "get", ← parseStrs f "http", ← parseStrs f "stream"⟩
+
+structure FaultOp where
+  e : E2EOp
+  faults : Faults
+
+def parseFaultOp (j : Json) : Except String FaultOp := do
+  return ⟨← parseE2EOp j, ← parseFaults j⟩
+
+def FaultOp.hop (fam : IPFamily) (o : FaultOp) : HOp :=
+  ⟨if o.e.reload then .cluster else .endpoints, o.e.conf fam, o.faults⟩
+
+def modelFaults (fam : IPFamily) (plus : Bool) (ops : List FaultOp) : Json :=
+  let tr := traceH plus HState.init (ops.map (·.hop fam))
+  Json.mkObj [("confs", Json.arr (ops.map fun o => confJson (o.e.conf fam)).toArray),
+              ("views", Json.arr (tr.map fun r => apiJson r.1.ngx.api).toArray),
+              ("errs", Json.arr (tr.map fun r => Json.bool r.2).toArray),
+              ("lastErrs", Json.arr (tr.map fun r => Json.bool r.1.lastErr).toArray)]
+
+/-- The property on what NGINX holds after a batch the handler reported as successful (or that no fault hit):
+the servers of every upstream are the endpoints the REAL configuration of that batch resolved (the 503 placeholder
+when none). `staleLoad`: the most recent ClusterStateChange batch did not get its reload through. -/
+def judgeHeld (plus isReload staleLoad : Bool) (c : Conf) (vh vs : Table) : List String :=
+  let tag := if plus then "plus" else "oss"
+  let h := c.http.flatMap fun u =>
+    (judgeServers u.eps (vh.servers u.name)).map fun f =>
+      if plus && f = "empty_no_503" then "plus_empty_no_503"
+      else if plus && !isReload && staleLoad && (vh.get u.name).isNone then "plus_quiet_after_failed_reload"
+      else "faults_" ++ tag ++ "_http_" ++ f
+  let s := c.stream.flatMap fun u =>
+    (judgeStreamServers u.eps (vs.servers u.name)).map fun f =>
+      if plus && !isReload && (vs.get u.name).isNone && f = "stream_servers_differ" then
+        (if staleLoad then "plus_quiet_after_failed_reload" else "plus_stream_upstream_absent")
+      else "faults_" ++ tag ++ "_" ++ f
+  h ++ s
+
+def judgeFaultsLine (fam : IPFamily) (plus : Bool) (ops : List FaultOp) (out : Json) : Except String String := do
+  let confs ← reqArr out "confs"
+  let views ← reqArr out "views"
+  let errs ← (← reqArr out "errs").mapM (·.getBool?)
+  let fired ← (← reqArr out "fired").mapM (·.getBool?)
+  let panics ← reqArr out "panics"
+  let n := ops.length
+  if views.length ≠ n || confs.length ≠ n || errs.length ≠ n || fired.length ≠ n then
+    return "fail faults_missing_views"
+  let allowed := getAllowedAddressType fam
+  let mut fails : List String := if panics.isEmpty then [] else ["faults_panic"]
+  let mut staleLoad := true
+  for (o, (cj, (v, (e, f)))) in ops.zip (confs.zip (views.zip (errs.zip fired))) do
+    let http ← (← reqArr cj "http").mapM parseUp
+    let stream ← (← reqArr cj "stream").mapM parseUp
+    if o.e.reload then staleLoad := o.faults.replace || o.faults.reload
+    for r in o.e.refs do
+      if admissible o.e.slices r.ns r.name r.sp allowed then
+        match findUp (if r.stream then stream else http) (upstreamName r) with
+        | none => fails := fails ++ ["upstream_missing"]
+        | some u => fails := fails ++ judgeResolve o.e.slices r.ns r.name r.sp allowed u.eps
+    if e && !f then fails := fails ++ ["faults_spurious_error"]
+    if !e || !f then
+      let vh ← parseTable v "http"
+      let vs ← parseTable v "stream"
+      fails := fails ++ judgeHeld plus o.e.reload staleLoad ⟨http, stream⟩ vh vs
+  return verdict fails
+
+
+/-! ### pipeE: EndpointSlices inside the pipeline model — `PipelineEndpoints.httpUpstreams` against the REAL http.conf -/
+
+end NGF.Resolver
+
+namespace NGF.C13Flat
+open Lean (Json)
+open NGF.Resolver (reqStr reqNat reqBool reqArr)
+
+def reqInt (j : Json) (k : String) : Except String Int := do (← j.getObjVal? k).getInt?
+open NGF.Spec.GatewayAPI
+
+def strMap (j : Json) (k : String) : Except String (List (String × String)) := do
+  match j.getObjVal? k with
+  | .ok (.obj m) => m.toList.mapM fun (a, b) => do pure (a, ← b.getStr?)
+  | _ => pure []
+
+def strs (j : Json) (k : String) : Except String (List String) := do (← reqArr j k).mapM (·.getStr?)
+
+def dKV (j : Json) : Except String KV := do pure ⟨← reqStr j "type", ← reqStr j "name", ← reqStr j "value"⟩
+def dHeader (j : Json) : Except String Header := do pure ⟨← reqStr j "name", ← reqStr j "value"⟩
+
+def dMatch (j : Json) : Except String Match := do
+  pure { ptype := ← reqStr j "ptype", pvalue := ← reqStr j "pvalue", method := ← reqStr j "method",
+         headers := ← (← reqArr j "headers").mapM dKV, query := ← (← reqArr j "query").mapM dKV,
+         hasGm := ← reqBool j "hasGm", gmType := ← reqStr j "gmType", hasService := ← reqBool j "hasService",
+         service := ← reqStr j "service", hasGMethod := ← reqBool j "hasGMethod", gmethod := ← reqStr j "gmethod" }
+
+def dFilter (j : Json) : Except String Filter := do
+  pure { type := ← reqStr j "type", present := ← reqBool j "present", scheme := ← reqStr j "scheme", hostname := ← reqStr j "hostname",
+         hasPort := ← reqBool j "hasPort", port := ← reqNat j "port", code := ← reqNat j "code", pathType := ← reqStr j "pathType",
+         pathValue := ← reqStr j "pathValue", set := ← (← reqArr j "set").mapM dHeader, add := ← (← reqArr j "add").mapM dHeader,
+         remove := ← strs j "remove" }
+
+def dBackend (j : Json) : Except String Backend := do
+  pure { group := ← reqStr j "group", kind := ← reqStr j "kind", hasNs := ← reqBool j "hasNs", ns := ← reqStr j "ns", name := ← reqStr j "name",
+         hasPort := ← reqBool j "hasPort", port := (← reqInt j "port").toNat, weight := ← reqInt j "weight", nfilters := ← reqNat j "nfilters" }
+
+def dRule (j : Json) : Except String Rule := do
+  pure { matches_ := ← (← reqArr j "matches").mapM dMatch, filters := ← (← reqArr j "filters").mapM dFilter,
+         backends := ← (← reqArr j "backends").mapM dBackend }
+
+def dParent (j : Json) : Except String ParentRef := do
+  pure { group := ← reqStr j "group", kind := ← reqStr j "kind", hasNs := ← reqBool j "hasNs", ns := ← reqStr j "ns", name := ← reqStr j "name",
+         hasSection := ← reqBool j "hasSection", sectionName := ← reqStr j "section", hasPort := ← reqBool j "hasPort" }
+
+def dRoute (j : Json) : Except String Route := do
+  pure { kind := ← reqStr j "kind", ns := ← reqStr j "ns", name := ← reqStr j "name", age := ← reqInt j "age",
+         parents := ← (← reqArr j "parents").mapM dParent, hostnames := ← strs j "hostnames", rules := ← (← reqArr j "rules").mapM dRule }
+
+def dListener (j : Json) : Except String Listener := do
+  pure { name := ← reqStr j "name", port := (← reqInt j "port").toNat, proto := ← reqStr j "proto", hasHost := ← reqBool j "hasHost",
+         host := ← reqStr j "host", hasTls := ← reqBool j "hasTls", tlsMode := ← reqStr j "tlsMode", tlsOpts := ← reqNat j "tlsOpts",
+         certs := ← (← reqArr j "certs").mapM (fun c => do
+           pure ({ group := ← reqStr c "group", kind := ← reqStr c "kind", hasNs := ← reqBool c "hasNs", ns := ← reqStr c "ns", name := ← reqStr c "name" } : CertRef)),
+         nsFrom := ← reqStr j "from", hasSel := ← reqBool j "hasSel", selMatch := ← strMap j "selMatch", selExprs := ← reqNat j "selExprs",
+         hasKinds := ← reqBool j "hasKinds",
+         kinds := ← (← reqArr j "kinds").mapM (fun c => do pure (⟨← reqStr c "group", ← reqStr c "kind"⟩ : KindRef)) }
+
+/-- C02's flat scenario (harness/c02/flat.go), same decoding as Driver/C02 and Driver/C06 -/
+def dScenario (j : Json) : Except String Scenario := do
+  pure { cls := ← reqStr j "class", ctlr := ← reqStr j "ctlr",
+         protectedPorts := ← (← reqArr j "protected").mapM (·.getNat?),
+         gcs := ← (← reqArr j "gcs").mapM (fun c => do pure (⟨← reqStr c "name", ← reqStr c "ctlr", ← reqInt c "age", ← reqBool c "params"⟩ : GatewayClass)),
+         gws := ← (← reqArr j "gws").mapM (fun g => do
+           pure ({ ns := ← reqStr g "ns", name := ← reqStr g "name", cls := ← reqStr g "class", age := ← reqInt g "age",
+                   addresses := ← reqNat g "addresses", listeners := ← (← reqArr g "listeners").mapM dListener } : Gateway)),
+         nss := ← (← reqArr j "nss").mapM (fun n => do pure (⟨← reqStr n "name", ← strMap n "labels"⟩ : Namespace)),
+         routes := ← (← reqArr j "routes").mapM dRoute,
+         svcs := ← (← reqArr j "svcs").mapM (fun v => do
+           pure ({ ns := ← reqStr v "ns", name := ← reqStr v "name",
+                   ports := ← (← reqArr v "ports").mapM (fun p => do pure (⟨(← reqInt p "port").toNat, ← reqBool p "ready"⟩ : SvcPort)) } : Svc)),
+         grants := ← (← reqArr j "grants").mapM (fun g => do
+           pure ({ ns := ← reqStr g "ns",
+                   «from» := ← (← reqArr g "from").mapM (fun f => do pure (⟨← reqStr f "group", ← reqStr f "kind", ← reqStr f "ns"⟩ : GrantFrom)),
+                   to := ← (← reqArr g "to").mapM (fun t => do pure (⟨← reqStr t "group", ← reqStr t "kind", ← reqBool t "hasName", ← reqStr t "name"⟩ : GrantTo)) } : Grant)),
+         secrets := ← (← reqArr j "secrets").mapM (fun x => do pure (⟨← reqStr x "ns", ← reqStr x "name", ← reqBool x "ok"⟩ : Secret)) }
+
+
+end NGF.C13Flat
+
+namespace NGF.Resolver
+open Lean (Json)
+
+def optStrF (j : Json) (k : String) : Except String (Option String) :=
+  match optField j k with
+  | none => pure none
+  | some v => do pure (some (← v.getStr?))
+
+def parseWrittenRef (j : Json) : Except String NGF.RefGrant.BackendRef := do
+  let port ← match optField j "port" with | none => pure none | some v => do pure (some (← v.getNat?))
+  let weight ← match optField j "weight" with | none => pure none | some v => do pure (some (← v.getInt?))
+  return { group := ← optStrF j "group", kind := ← optStrF j "kind", ns := ← optStrF j "ns", name := ← reqStr j "name",
+           port := port, weight := weight, nfilters := ← reqNat j "nfilters" }
+
+def parseWrittenObjs (inp : Json) : Except String NGF.RefGrant.Objs := do
+  let routes ← (← reqArr inp "routes").mapM fun r => do
+    let rules ← (← reqArr r "rules").mapM fun ru => do
+      return ({ paths := [], refs := ← (← reqArr ru "refs").mapM parseWrittenRef } : NGF.RefGrant.RRule)
+    return ({ kind := .http, ns := ← reqStr r "ns", name := ← reqStr r "name", rules := rules } : NGF.RefGrant.Route)
+  let grants ← (← reqArr inp "grants").mapM fun g => do
+    let froms ← (← reqArr g "from").mapM fun f => do
+      return ({ group := ← reqStr f "group", kind := ← reqStr f "kind", ns := ← reqStr f "ns" } : NGF.RefGrant.GrantFrom)
+    let tos ← (← reqArr g "to").mapM fun t => do
+      return ({ group := ← reqStr t "group", kind := ← reqStr t "kind", name := ← optStrF t "name" } : NGF.RefGrant.GrantTo)
+    return ({ ns := ← reqStr g "ns", name := ← reqStr g "name", froms := froms, tos := tos } : NGF.RefGrant.Grant)
+  return { grants := grants, routes := routes, gateways := [], secrets := [] }
+
+structure PipeEIn where
+  c : Except String NGF.PipelineEndpoints.ScenarioE   -- error = why the case is outside the fragment
+  ports : List NGF.PipelineEndpoints.PortInfo
+  slices : List Slice
+
+def parsePipeEIn (inp : Json) : Except String PipeEIn := do
+  let flat ← NGF.C13Flat.dScenario (← inp.getObjVal? "flat")
+  let objs ← parseWrittenObjs inp
+  let ports ← (← reqArr inp "ports").mapM fun p => do
+    return (⟨← reqStr p "ns", ← reqStr p "name", ← parseSvcPort (← p.getObjVal? "sp")⟩ : NGF.PipelineEndpoints.PortInfo)
+  let slices ← (← reqArr inp "slices").mapM parseSlice
+  let c := match NGF.PipelineRefsTie.toScenarioR flat objs with
+    | .ok base => .ok { base := base, ports := ports, slices := slices }
+    | .error e => .error e
+  return ⟨c, ports, slices⟩
+
+def modelPipeE (i : PipeEIn) : Json :=
+  match i.c with
+  | .error e => Json.mkObj [("inFragment", false), ("why", e)]
+  | .ok c =>
+    Json.mkObj [("inFragment", true),
+      ("conf", Json.arr ((NGF.PipelineEndpoints.upstreamsOf c).map upJson).toArray),
+      ("upstreams", Json.arr ((NGF.PipelineEndpoints.httpUpstreams c).map ngxJson).toArray),
+      ("targets", Json.arr ((((NGF.PipelineRefs.confTargets (NGF.PipelineRefs.genR c.base)).filter (·.2 != 0)).map
+          (fun t => String.ofList t.1)).eraseDups.map Json.str).toArray),
+      ("backends", (NGF.PipelineEndpoints.backends c).length)]
+
+/-- The property on the real output, independent of the pipeline model: every upstream of the real configuration has
+exactly one block in http.conf whose `server` lines are its endpoints (503 placeholder when none); every block belongs to
+an upstream of the configuration (or is `invalid-backend-ref`); the endpoints of an upstream named after a Service
+port satisfy the resolution clauses for that Service; every upstream name the real http.conf proxies to is defined. -/
+def judgePipeELine (i : PipeEIn) (out : Json) : Except String String := do
+  if (optField out "panic").isSome then return "fail pipeE_panic"
+  if (optField out "noConf").isSome then return "skip no configuration"
+  let conf ← (← reqArr out "conf").mapM parseUp
+  let blocks ← (← reqArr out "upstreams").mapM fun b => do
+    return (← reqStr b "name", ← parseStrs b "servers")
+  let allowed := getAllowedAddressType .dual
+  let mut fails : List String := []
+  for u in conf do
+    match blocks.filter (·.1 = u.name) with
+    | [(_, servers)] => fails := fails ++ (judgeServers u.eps servers).map ("pipeE_" ++ ·)
+    | [] => fails := fails ++ ["pipeE_upstream_block_missing"]
+    | _ => fails := fails ++ ["pipeE_upstream_block_duplicated"]
+    for p in i.ports do
+      if p.ns ++ "_" ++ p.name ++ "_" ++ toString p.sp.port = u.name then
+        -- the first spec.ports entry with this number is the one the graph uses
+        match i.ports.find? (fun q => q.ns == p.ns && q.name == p.name && q.sp.port == p.sp.port) with
+        | some q =>
+          if q == p && admissible i.slices p.ns p.name p.sp allowed then
+            fails := fails ++ (judgeResolve i.slices p.ns p.name p.sp allowed u.eps).map ("pipeE_" ++ ·)
+        | none => pure ()
+  for b in blocks do
+    if b.1 ≠ "invalid-backend-ref" && !(conf.any (·.name = b.1)) then fails := fails ++ ["pipeE_block_without_upstream"]
+  -- every upstream the REAL http.conf proxies to (proxy_pass, split_clients values with a non-zero share) is defined once
+  for n in (← parseStrs out "proxied") do
+    match blocks.filter (·.1 = n) with
+    | [_] => pure ()
+    | [] => fails := fails ++ ["pipeE_proxied_upstream_undefined"]
+    | _ => fails := fails ++ ["pipeE_proxied_upstream_defined_twice"]
+  return verdict fails
+
 /-! ### seq: serversEqual alone -/
 
 /-- on duplicate-free lists `serversEqual` must say exactly "same set" -/
@@ -349,6 +597,14 @@ def handle (mode : String) (line : String) : String :=
         let fam := parseFam (← reqStr inp "fam")
         let ops ← (← reqArr inp "ops").mapM parseE2EOp
         if mode = "model" then return (modelE2E fam ops).compress else judgeE2ELine fam ops out
+      else if k = "faults" then
+        let fam := parseFam (← reqStr inp "fam")
+        let plus ← reqBool inp "plus"
+        let ops ← (← reqArr inp "ops").mapM parseFaultOp
+        if mode = "model" then return (modelFaults fam plus ops).compress else judgeFaultsLine fam plus ops out
+      else if k = "pipeE" then
+        let i ← parsePipeEIn inp
+        if mode = "model" then return (modelPipeE i).compress else judgePipeELine i out
       else if k = "seq" then
         let new ← parseStrs inp "new"
         let old ← parseStrs inp "old"
